@@ -1,0 +1,20 @@
+//go:build verif
+
+// Contracts for the deductive verifier under /verif (comment-only file: it
+// adds no code; compiled only with -tags verif).
+package exitcode
+
+// C20: the exit code is a fixed function of the classification.
+//verif:def exitOfGRPC(c) = ite(c == 0 || c == 1, 0, ite(c == 3 || c == 5 || c == 6 || c == 9 || c == 11, 2, ite(c == 14 || c == 4 || c == 8 || c == 16 || c == 7, 3, 1)))
+
+//verif:func fromGRPCCode(c) (r)
+//verif:ensures[table] r == exitOfGRPC(c)
+//verif:pure
+
+//verif:func ExitCode(err) (r)
+//verif:ensures[nil] err == nil ==> r == 0
+//verif:ensures[cancelled] err != nil && result_of("$global.cerrors.Is", 0) && count("$global.cerrors.Is") == 1 ==> r == 0
+//verif:ensures[coded-error-by-its-code] err != nil && called("conduiterr.Get") && err_has(err, typeid("*conduiterr.ConduitError")) ==> r == exitOfGRPC(asptr(err_find(err, typeid("*conduiterr.ConduitError")), "*conduiterr.ConduitError").Code.grpcCode)
+//verif:ensures[code-checked-before-transport-status] called("status.FromError") ==> called("conduiterr.Get") && !result_of("conduiterr.Get", 1)
+//verif:call[cancel-check-first] conduiterr.Get requires count("$global.cerrors.Is") == 1 && !result_of("$global.cerrors.Is", 0) && arg0 == err
+//verif:ensures[range] 0 <= r && r <= 3
